@@ -13,6 +13,7 @@
    anything else: "bad-op" -/
 import Hw.Topo.SetStage
 import Driver.Util
+import Driver.Stage2
 namespace Driver.SetStageEng
 open Hw.Topo Hw.Topo.SetStage Driver
 
@@ -35,6 +36,7 @@ structure St where
   lines : List Line := []     -- reversed
   expected : Option (List String × List String × String × Nat × List String) := none
       -- rows of set-bearing objects, sorted rows of special objects, allowed line, flags, BEFORE rows (to count changes)
+  s2 : Stage2Eng.St2 := {}    -- the later stage boundaries (STAGE2 / P / END2 lines, Driver.Stage2)
 deriving Inhabited
 
 def parseLine (t : List String) : Option Line :=
@@ -167,7 +169,10 @@ def step (s : St) (line : String) : St × String :=
   let t := tokens line
   match t with
   | "CASE" :: _ => ({}, ".")
-  | "LOADED" :: _ => (s, ".")
+  | "LOADED" :: _ => let r := Stage2Eng.step s.s2 t; ({ s with s2 := r.1 }, r.2)
+  | "STAGE2" :: _ => let r := Stage2Eng.step s.s2 t; ({ s with s2 := r.1 }, r.2)
+  | "P" :: _ => let r := Stage2Eng.step s.s2 t; ({ s with s2 := r.1 }, r.2)
+  | "END2" :: _ => let r := Stage2Eng.step s.s2 t; ({ s with s2 := r.1 }, r.2)
   | ["STAGE", "before", flags, ac, an] =>
     match parseNat flags with
     | some f => ({ phase := 1, flags := f, hdr := [ac, an], lines := [], expected := none }, ".")
